@@ -19,7 +19,7 @@ LEVEL = "model_checking"
 RULE = ("E2: all schedules with <= K deviations from the default (deliver oldest / next app step / next timer) over the menu "
         "drop, duplicate, reorder, delay, early app step, server reply mode (piggyback/separate CON/separate NON/silent), "
         "forged responses (token+-1, sniffed token from other IP/port, replay of a retired response), RST, ICMP error, "
-        "sendmsg OSError (two errno values each, one of which Python maps to a builtin exception class), a retry that re-sends the same Message object, shutdown (also with a request submitted while it is under way), withdrawal of a request by the application (at once, held back, in flight); distinct = distinct schedule; states = distinct world digests at choice points")
+        "sendmsg OSError (two errno values each, one of which Python maps to a builtin exception class), a retry that re-sends the same Message object (after giving up, and while the first request is still outstanding), shutdown (also with a request submitted while it is under way), withdrawal of a request by the application (at once, held back, in flight); distinct = distinct schedule; states = distinct world digests at choice points")
 ASSUMPTIONS = [
     "liveness is asserted as event => completion (RFC 7252 gives a NON or already-ACKed request no time-out)",
     "non-observe requests only (observe token life cycle is C07)",
@@ -50,6 +50,10 @@ SCENARIOS = {
     # an application-level retry: the application gives up on r0 and sends the very same Message object again (it still
     # carries the token and message ID the library put into it); an answer to the first attempt is an answer to nothing
     "S-REQ-retry": [("r0", "NON", "S1"), None, ("r1", "NON", "S1", "resend:r0")],
+    # ... and sends the same Message object a second time while the first request is still outstanding (non-confirmable: each
+    # submission is a request of its own, under its own token)
+    "S-REQ-reuse": [("r0", "NON", "S1"), ("r1", "NON", "S1", "reuse:r0")],
+    "S-REQ-reuse-later": [("r0", "NON", "S1"), None, ("r1", "NON", "S1", "reuse:r0")],
     # (non-confirmable only: a confirmable message object stays in the message layer's hands, which goes on retransmitting it,
     # until its exchange is over - handing it in a second time before that is not a request the property speaks of)
 }
@@ -66,7 +70,7 @@ class MidServer(RefServer):
 class Req:
     def __init__(self, name, mtype, srv, flag=None):
         self.name, self.mtype, self.srv, self.flag = name, mtype, srv, flag
-        self.path = flag.split(":")[1] if flag and flag.startswith("resend:") else name
+        self.path = flag.split(":")[1] if flag and flag.startswith(("resend:", "reuse:")) else name
         self.obj = None
         self.done_calls = 0
         self.token = None
@@ -124,7 +128,8 @@ class MatchScenario(NetScenario):
             self.issue(st, r)
         st.world.loop.settle()
         for r in g:
-            r.token = r.msg.token   # the token is visible to the application on its message object
+            if r.token is None or not (r.flag or "").startswith("reuse:") and not any((o.flag or "") == "reuse:" + r.name for o in st.reqs):
+                r.token = r.msg.token   # the token is visible to the application on its message object (unless the object was used again)
         for r in g:
             for o in st.reqs:
                 if o is not r and o.obj is not None and o.token == r.token and o.srv == r.srv and self.outstanding(o) and self.outstanding(r):
@@ -156,7 +161,9 @@ class MatchScenario(NetScenario):
                 await asyncio.sleep(0)
                 return await real(message)
             st.cli.ctx.find_remote_and_interface = slow
-        if r.flag and r.flag.startswith("resend:"):
+        if r.flag and r.flag.startswith("reuse:"):
+            m = [o for o in st.reqs if o.name == r.path][0].msg
+        elif r.flag and r.flag.startswith("resend:"):
             first = [o for o in st.reqs if o.name == r.path][0]
             if not first.obj.response.done():
                 first.withdrawn = True
@@ -197,6 +204,7 @@ class MatchScenario(NetScenario):
                         if o is not r and o.token == r.token and o.srv == r.srv and o.obj is not None and not o.obj.response.done():
                             st.violations.append(Violation("token-reuse", "pairwise different tokens", r.token.hex(),
                                                            "tokenmanager.py:next_token", {}, key="reuse"))
+                    break       # one datagram is the first transmission of one request
 
     def outstanding(self, r):
         return r.obj is not None and not r.obj.response.done()
